@@ -227,6 +227,24 @@ def _canon_parse(fn, s):
     return ('ok', t.node, list(t.metadata.items()))
 
 
+def _canon_iterparse(s):
+    """The trees penman.iterparse yields for the text s, and how the generator ended."""
+    import penman
+    out = []
+
+    def go():
+        del out[:]
+        for t in penman.iterparse(s):
+            out.append(('ok', t.node, list(t.metadata.items())))
+    try:
+        patient(go)
+        return out, None
+    except Timeout:
+        return out, ('hang',)
+    except Exception as e:                      # noqa
+        return out, (type(e).__name__,)
+
+
 def _residue(text, toks):
     """What is left of text outside the token spans: '' when only ' ' and LF, else a description."""
     lines = text.split('\n')
@@ -277,7 +295,9 @@ def _impl_tree(item):
             full, res = 'hang', ''
         except Exception as e:                  # noqa
             full, res = None, 'lexer raised ' + type(e).__name__
-        out.append(('ok', s, rt, full, res))
+        # the same text through the multi-graph entry point (every option when there is metadata)
+        itp = _canon_iterparse(s) if (meta or (ind, cmp) == (-1, False)) else None
+        out.append(('ok', s, rt, full, res, itp))
     return out
 
 
@@ -472,7 +492,10 @@ def process_trees(chk, trees, lex_sample_every=7):
                     chk.mismatch('format does not return on the implementation', case, r, mtext)
                 rt_all = False
                 continue
-            _, s, rt, full, res = r
+            _, s, rt, full, res, itp = r
+            if itp is not None and itp[1] == ('hang',):
+                chk.fail('hang', f'iterparse({s!r}) does not return', dict(case, text=s))
+                itp = None
             if rt[0] == 'hang' or full == 'hang':
                 chk.fail('hang', f'{"parse" if rt[0] == "hang" else "lex"}({s!r}) does not return', dict(case, text=s))
                 rt_all = False
@@ -503,6 +526,8 @@ def process_trees(chk, trees, lex_sample_every=7):
                              f'the tree {node!r}; text {s!r}', case)
                 if rt[2] != list(meta):
                     chk.fail('metadata', f'metadata {rt[2]!r} read back from {s!r} differs from {list(meta)!r}', case)
+            if itp is not None and itp != ([('ok', node, list(meta))], None):
+                chk.fail('roundtrip', f'iterparse of the formatted text {s!r} yields {itp!r}, not exactly the tree', case)
             if res:
                 chk.fail('options-whitespace', f'text {s!r} (indent={ind}, compact={cmp}) has more than spaces and '
                          f'line feeds between its tokens: {res}', case)
@@ -586,13 +611,13 @@ def run(chk):
     common.use_repo()
     rng = chk.rng
     quick = chk.tier == 'quick'
-    n_text = 12000 if quick else 150000
-    n_comment_sample = 1500 if quick else 30000
-    n_constructed = 2600 if quick else 34000
-    n_gen = 800 if quick else 8000
+    n_text = 12000 if quick else 120000
+    n_comment_sample = 1500 if quick else 20000
+    n_constructed = 2600 if quick else 26000
+    n_gen = 800 if quick else 6000
     n_small = 600 if quick else None
-    n_parsed = 1100 if quick else 10000
-    n_nonwf = 1500 if quick else 12000
+    n_parsed = 1100 if quick else 8000
+    n_nonwf = 1500 if quick else 8000
 
     # ---- (a) strings: fixed point + parse correspondence; accepted trees join the tree stream ----
     strings = [gen.random_penman_text(rng, p_bad=0.3 if i % 2 else 0.0) for i in range(n_text)]
